@@ -303,7 +303,7 @@ func (cl *compiler) compileAssignStmt(assign *ast.AssignStmt) {
 		for i := len(assign.Lhs) - 1; i >= 0; i-- {
 			varname := assign.Lhs[i].(*ast.Ident)
 			typ := cl.ctx.Types.TypeOf(varname)
-			if _, ok := cl.locals[varname.String()]; ok {
+			if _, ok := cl.locals[varname.String()]; ok || cl.isParamName(varname.String()) {
 				panic(cl.errorf(varname, "%s variable shadowing is not allowed", varname))
 			}
 			if !cl.isSupportedType(typ) {
